@@ -118,9 +118,31 @@ pub fn regions(sqe: &Sqe) -> Vec<(u64, usize, u8, bool)> {
     out
 }
 
+/// Pseudo request id for a submission that is published in the submission
+/// queue but not yet consumed by the kernel.
+pub fn pending_id(user_data: u64) -> u64 {
+    (1 << 62) | (user_data >> 1)
+}
+
+/// A submission became visible to the kernel (a10 published the tail): from
+/// now on everything it points to belongs to the kernel.
+pub fn hold_published(sqe: &Sqe) {
+    let ud = sqe.user_data();
+    if ud <= 3 {
+        return;
+    }
+    let id = pending_id(ud);
+    alloc::release(id);
+    alloc::hold((ud & !1) as usize, 16, id, what::STATE);
+    for (addr, len, w, _) in regions(sqe) {
+        alloc::hold(addr as usize, len, id, w);
+    }
+}
+
 /// Register everything request `id` hands to the kernel as kernel-held.
 pub fn hold_regions(s: &mut Simk, id: u64) {
     let sqe = s.reqs[&id].sqe.clone();
+    alloc::release(pending_id(sqe.user_data()));
     // The operation state itself: the completion handler dereferences it.
     let ud = sqe.user_data();
     if ud > 3 {
@@ -336,6 +358,7 @@ pub fn complete(s: &mut Simk, id: u64, res: i32, more: bool) -> Cqe {
     }
     let mut res = res;
     let mut flags = 0u32;
+    let mut produced: Vec<u8> = Vec::new();
     let op = sqe.opcode();
     let freed = alloc::was_freed(id);
     let touch = !freed || crate::mon::alloc::PASS_THROUGH_ONLY || true;
@@ -348,7 +371,8 @@ pub fn complete(s: &mut Simk, id: u64, res: i32, more: bool) -> Cqe {
                             Ok((bid, addr, len)) => {
                                 let n = (res as usize).min(len as usize);
                                 res = n as i32;
-                                wr_bytes(addr, &pattern_vec(id ^ (u64::from(bid) << 32) ^ (s.reqs[&id].posted.len() as u64) << 48, n));
+                                produced = pattern_vec(id ^ (u64::from(bid) << 32) ^ (s.reqs[&id].posted.len() as u64) << 48, n);
+                                wr_bytes(addr, &produced);
                                 s.counters.mem_writes += 1;
                                 flags |= CQE_F_BUFFER | (u32::from(bid) << CQE_BUFFER_SHIFT);
                             }
@@ -357,7 +381,8 @@ pub fn complete(s: &mut Simk, id: u64, res: i32, more: bool) -> Cqe {
                     } else {
                         let n = (res as usize).min(sqe.len() as usize);
                         res = n as i32;
-                        wr_bytes(sqe.addr(), &pattern_vec(id, n));
+                        produced = pattern_vec(id, n);
+                        wr_bytes(sqe.addr(), &produced);
                         s.counters.mem_writes += 1;
                     }
                 }
@@ -365,6 +390,7 @@ pub fn complete(s: &mut Simk, id: u64, res: i32, more: bool) -> Cqe {
                     let total = res as usize;
                     let data = pattern_vec(id, total);
                     res = scatter(sqe.addr(), sqe.len() as usize, &data) as i32;
+                    produced = data[..res as usize].to_vec();
                     s.counters.mem_writes += 1;
                 }
                 OP_RECVMSG => {
@@ -376,7 +402,8 @@ pub fn complete(s: &mut Simk, id: u64, res: i32, more: bool) -> Cqe {
                             Ok((bid, addr, len)) => {
                                 let n = (res as usize).min(len as usize);
                                 res = n as i32;
-                                wr_bytes(addr, &pattern_vec(id ^ (u64::from(bid) << 32), n));
+                                produced = pattern_vec(id ^ (u64::from(bid) << 32), n);
+                                wr_bytes(addr, &produced);
                                 flags |= CQE_F_BUFFER | (u32::from(bid) << CQE_BUFFER_SHIFT);
                             }
                             Err(e) => res = -e,
@@ -384,6 +411,7 @@ pub fn complete(s: &mut Simk, id: u64, res: i32, more: bool) -> Cqe {
                     } else {
                         let data = pattern_vec(id, res as usize);
                         res = scatter(iov, iovlen, &data) as i32;
+                        produced = data[..res as usize].to_vec();
                     }
                     s.counters.mem_writes += 1;
                     if res >= 0 {
@@ -502,7 +530,8 @@ pub fn complete(s: &mut Simk, id: u64, res: i32, more: bool) -> Cqe {
                 OP_URING_CMD => match sqe.off() as u32 {
                     SOCKET_URING_OP_GETSOCKOPT => {
                         let n = (res as usize).min(sqe.file_index() as usize);
-                        wr_bytes(sqe.addr3(), &pattern_vec(id, n));
+                        produced = pattern_vec(id, n);
+                        wr_bytes(sqe.addr3(), &produced);
                         s.counters.mem_writes += 1;
                         res = n as i32;
                     }
@@ -517,6 +546,23 @@ pub fn complete(s: &mut Simk, id: u64, res: i32, more: bool) -> Cqe {
                     }
                     _ => {}
                 },
+                _ => {}
+            }
+        }
+    }
+    if res < 0 && touch {
+        // A failed attempt may leave anything in the buffers it was given.
+        unsafe {
+            match op {
+                OP_READ | OP_RECV if !sqe.buffer_select() => {
+                    wr_bytes(sqe.addr(), &pattern_vec(id ^ 0xBAD0_0000, sqe.len() as usize));
+                    s.counters.mem_writes += 1;
+                }
+                OP_READV => {
+                    let total: usize = regions(&sqe).iter().filter(|r| r.2 == what::DATA).map(|r| r.1).sum();
+                    scatter(sqe.addr(), sqe.len() as usize, &pattern_vec(id ^ 0xBAD0_0000, total));
+                    s.counters.mem_writes += 1;
+                }
                 _ => {}
             }
         }
@@ -538,17 +584,31 @@ pub fn complete(s: &mut Simk, id: u64, res: i32, more: bool) -> Cqe {
     {
         let r = s.reqs.get_mut(&id).unwrap();
         r.posted.push(cqe);
+        r.produced.push(produced);
         if final_ {
             r.state = ReqState::Done;
         } else if zc {
             r.state = ReqState::AwaitNotif;
         }
     }
+    // The operation state was freed while the kernel still referenced it: a10's
+    // completion handler would dereference freed (quarantined, poisoned) memory,
+    // which natively shows up as a hang on a poisoned lock. The violation is
+    // already recorded; do not deliver. Sanitizer/Miri flavours do deliver so
+    // that the tool reports the access itself.
+    let state_freed = !alloc::PASS_THROUGH_ONLY && alloc::was_freed_what(id, what::STATE);
+    let deliver = !skip && !state_freed;
     if final_ {
-        alloc::release(id);
+        if deliver {
+            // Buffers are the caller's again; the operation state stays
+            // referenced until a10 consumed the completion.
+            alloc::release_except(id, what::STATE);
+        } else {
+            alloc::release(id);
+        }
     }
-    if !skip {
-        post_cqe(s, ring_fd, cqe);
+    if deliver {
+        super::enter::post_cqe_for(s, ring_fd, cqe, if final_ { id } else { 0 });
     }
     cqe
 }
@@ -562,11 +622,12 @@ pub fn post_notif(s: &mut Simk, id: u64) -> Cqe {
         (r.sqe.user_data(), r.ring)
     };
     // The kernel is done with the buffer only now.
-    alloc::release(id);
+    alloc::release_except(id, what::STATE);
     let garbage = (s.rng.next() & 0x7fff_ffff) as i32;
     let cqe = Cqe { user_data: ud, res: if s.rng.chance(1, 2) { 0 } else { garbage }, flags: CQE_F_NOTIF };
     s.reqs.get_mut(&id).unwrap().posted.push(cqe);
-    post_cqe(s, ring_fd, cqe);
+    s.reqs.get_mut(&id).unwrap().produced.push(Vec::new());
+    super::enter::post_cqe_for(s, ring_fd, cqe, id);
     cqe
 }
 
